@@ -276,7 +276,11 @@ def dispatch : Dispatch := fun _ op args =>
     pure (if a = b then a
           else if unmirrored b then a
           else if unmirrored a then b
-          else a ++ " !model-word-size-disagree w32=" ++ b)
+          -- the model itself predicts different answers for the two word sizes: whatever the builds say,
+          -- C19 is violated on this input (or the op is about the representation and must not be replayed
+          -- across configurations).  An ordinary disagreement — the payload can never equal an answer of
+          -- the implementation; `!model-…` stays reserved for defects of the model / driver.
+          else "required: the same answer in every configuration; the model predicts w64=" ++ a ++ " || w32=" ++ b)
   | _, _ => none
 
 end Dashu.Driver.Cfg
